@@ -1029,7 +1029,13 @@ func blockedInLibrary() (string, string) {
 		hdr := lines[0]
 		// (only calls the harness itself is making: a goroutine the library keeps
 		// for its own purposes may wait on a condition variable for ever)
-		if !(strings.Contains(hdr, "[sync.") || strings.Contains(hdr, "[semacquire")) || !strings.Contains(g, "main.exec") {
+		// Lock acquisition only. A goroutine in Cond.Wait or WaitGroup.Wait waits
+		// for a PEER, and the peer may simply be parked by the simulator (a memo
+		// whose second caller waits for the first one's result): that is the
+		// simulator's inability to run two library goroutines at once, not a
+		// defect - it ends as machinery trouble (exit 2), never as a verdict.
+		lockWait := strings.Contains(hdr, "[sync.Mutex.Lock") || strings.Contains(hdr, "[sync.RWMutex.Lock") || strings.Contains(hdr, "[sync.RWMutex.RLock") || strings.Contains(hdr, "[semacquire")
+		if !lockWait || !strings.Contains(g, "main.exec") {
 			continue
 		}
 		for _, l := range lines[1:] {
